@@ -284,9 +284,15 @@ def m_F37(case, backend, f):
 
 
 def m_F32(case, backend, f):
-    return (backend == "sqlite" and f["kind"] == "exc" and f.get("exc") == "FunctionTypeError"
-            and "incompatible function types found in case statement" in (f.get("msg") or "")
-            and any(st[0] == "alias" for p in walk_pipes(case["pipe"]) for st in p["steps"]))
+    """stale memoised function types after the subquery rewrite (check_subquery re-maps the Col
+    leaves of the new verb but the copied ColFn / CaseExpr nodes keep the _ftype computed before)"""
+    if backend != "sqlite":
+        return False
+    has_alias = any(st[0] == "alias" for p in walk_pipes(case["pipe"]) for st in p["steps"])
+    if f["kind"] == "exc" and f.get("exc") == "FunctionTypeError" and has_alias \
+            and "incompatible function types found in case statement" in (f.get("msg") or ""):
+        return True
+    return f["kind"] == "l2_cache" and f.get("code") == 3 and f.get("markers", 0) > 0 and has_alias
 
 
 def m_F33(case, backend, f):
